@@ -73,6 +73,8 @@ func (f *in) Listen(onMsg func(msg []byte, milliseconds int32), conf drivers.Lis
 	//fmt.Printf("listeining from in port of %s\n", f.Driver.name)
 
 	f.last = time.Now()
+	// a previous listener may have been stopped
+	f.stopListening = false
 
 	stopFn = func() {
 		f.stopListening = true
@@ -143,7 +145,8 @@ func (f *out) Send(bt []byte) error {
 		return drivers.ErrPortClosed
 	}
 
-	if f.stopListening {
+	// without an active listener, the message is dropped
+	if f.stopListening || f.rd == nil {
 		return nil
 	}
 
